@@ -376,7 +376,9 @@ Definition gen_core (probs : list (list Q)) (perms : list (list nat)) (N : num) 
             else ([], [], 1) in
           let wts := wts0 * q in
           let sn := Qceiling wts in
-          if Z.ltb sn 1 then Crashed                        (* assert samples_needed >= 1 *)
+          if Z.ltb sn 1 then Ok (CDone ret)                 (* REPAIRED (F9): `if samples_needed < 1: return retval`;
+                                                               /repo has `assert samples_needed >= 1` here, which fails
+                                                               when the whole residual mass was zeroed by the cut-off *)
           else
             let ssw := wts / inject_Z sn in
             let sample := Ok (CSample ret cond (Z.to_nat sn) ssw) in
